@@ -356,8 +356,8 @@ func (n *Node) Crash() {
 	n.Alive = false
 }
 
-// afterActivity converts a crash that fired inside an activity into a dead node.
-func (n *Node) afterActivity() bool {
+// AfterActivity converts a crash that fired inside an activity into a dead node.
+func (n *Node) AfterActivity() bool {
 	fired := n.Disk.Disarm()
 	if fired {
 		n.stopLoops()
@@ -373,7 +373,7 @@ func (n *Node) WithCrash(k int, f func()) bool {
 		n.Disk.Arm(k)
 	}
 	f()
-	return n.afterActivity()
+	return n.AfterActivity()
 }
 
 // runLoop runs one of the manager's loops as a goroutine until it is durably blocked, then cancels it.
